@@ -77,6 +77,10 @@ type RowRef struct {
 	P  int      `json:"p"` // 1-based profile index; 0 = row aggregated over all profiles (the MergeJoinedPlanner SQL)
 	ID []string `json:"id"`
 }
+type PStack struct {
+	Stack []string `json:"stack"` // leaf first
+	Val   []int64  `json:"val"`
+}
 type Case struct {
 	Cfg     string     `json:"cfg"`
 	K       int        `json:"k"`
@@ -88,6 +92,7 @@ type Case struct {
 	Stacked [][]int64  `json:"stacked"`
 	Roots   [][]int64  `json:"roots"`
 	Merged  []Node     `json:"merged"`
+	PMerged []PStack   `json:"pmerged"` // ProfTree!PayloadMerged: the merged pprof payload, one value vector per distinct stack
 	Rows    []RowRef   `json:"rows"`
 	Asc     []Layout   `json:"asc"`
 	Desc    []Layout   `json:"desc"`
@@ -250,7 +255,7 @@ func (c *Concrete) realName(atom string) string {
 
 // buildPprof turns one abstract profile (bag of samples) into a pprof profile.  The same atom is realised by one or two
 // pprof Functions with the same Name and different ids, and by shared or private Locations; sample order is shuffled.
-func buildPprof(rng *rand.Rand, c *Concrete, k int, prof []Sample) *pprof.Profile {
+func buildPprof(rng *rand.Rand, c *Concrete, k int, prof []Sample, cl map[string]int) *pprof.Profile {
 	p := &pprof.Profile{
 		PeriodType:    &pprof.ValueType{Type: "cpu", Unit: "nanoseconds"},
 		Period:        10000000,
@@ -260,11 +265,30 @@ func buildPprof(rng *rand.Rand, c *Concrete, k int, prof []Sample) *pprof.Profil
 	for j := 0; j < k; j++ {
 		p.SampleType = append(p.SampleType, &pprof.ValueType{Type: c.Types[j][0], Unit: c.Types[j][1]})
 	}
-	var mapping *pprof.Mapping
-	if rng.Intn(2) == 0 {
-		mapping = &pprof.Mapping{ID: 1, Start: 0x1000, Limit: 0x9000, File: "/bin/app", BuildID: "abc"}
-		p.Mapping = append(p.Mapping, mapping)
+	// what a location carries besides its function (ProfTree!LocClasses): no mapping in the profile at all, one mapping with the
+	// dense id 1, a sparse id, or two mappings (dense or sparse ids); every location is bound to one of them or to none
+	var mappings []*pprof.Mapping
+	layout := rng.Intn(6)
+	switch layout {
+	case 0: // no mapping at all
+	case 1, 2: // one mapping, id 1
+		mappings = []*pprof.Mapping{{ID: 1, Start: 0x1000, Limit: 0x9000, File: "/bin/app", BuildID: "abc"}}
+	case 3: // one mapping, sparse id
+		mappings = []*pprof.Mapping{{ID: uint64(rng.Intn(6) + 2), Start: 0x1000, Limit: 0x9000, File: "/bin/app", BuildID: "abc"}}
+	case 4: // two mappings, dense ids
+		mappings = []*pprof.Mapping{{ID: 1, Start: 0x1000, Limit: 0x9000, File: "/bin/app", BuildID: "abc"},
+			{ID: 2, Start: 0x10000, Limit: 0x90000, File: "/lib/libjit.so", BuildID: ""}}
+	case 5: // two mappings, sparse ids in any order
+		a := uint64(rng.Intn(4) + 2)
+		b := a + uint64(rng.Intn(4)+1)
+		if rng.Intn(2) == 0 {
+			a, b = b, a
+		}
+		mappings = []*pprof.Mapping{{ID: a, Start: 0x1000, Limit: 0x9000, File: "/bin/app", BuildID: "abc"},
+			{ID: b, Start: 0x10000, Limit: 0x90000, File: "/lib/libjit.so", BuildID: "def"}}
 	}
+	p.Mapping = append(p.Mapping, mappings...)
+	mapMode := rng.Intn(3) // 0: every location unmapped, 1: mixed, 2: every location mapped (when there is a mapping)
 	fnID := uint64(rng.Intn(5) + 1)
 	locID := uint64(rng.Intn(5) + 1)
 	funcs := map[string][]*pprof.Function{}
@@ -272,8 +296,20 @@ func buildPprof(rng *rand.Rand, c *Concrete, k int, prof []Sample) *pprof.Profil
 	newLoc := func(atom string) *pprof.Location {
 		l := &pprof.Location{ID: locID, Address: 0x1000 + locID*16}
 		locID += uint64(rng.Intn(3) + 1)
-		if rng.Intn(2) == 0 {
-			l.Mapping = mapping
+		if len(mappings) > 0 && (mapMode == 2 || (mapMode == 1 && rng.Intn(2) == 0)) {
+			l.Mapping = mappings[rng.Intn(len(mappings))]
+		}
+		if cl != nil {
+			switch {
+			case l.Mapping == nil:
+				cl["payload_location_unmapped"]++
+			case l.Mapping.ID > uint64(len(mappings)):
+				cl["payload_location_sparse_mapping_id"]++
+			case l.Mapping == mappings[0]:
+				cl["payload_location_mapped"]++
+			default:
+				cl["payload_location_second_mapping"]++
+			}
 		}
 		if c.Names[atom] != noLine {
 			fs := funcs[atom]
@@ -1093,6 +1129,142 @@ type auxStats struct {
 	FirstPanicCase, FirstMismatchCase    interface{}
 }
 
+// stackKey names a stack by the function names the writer records (leaf first).
+func stackKey(names []string) string { return strconv.Itoa(len(names)) + "\x00" + strings.Join(names, "\x00") } // (the empty stack and the stack of one function named "" differ)
+
+// payloadMerge is the binding of ProfTree!PayloadMerged: the stored payloads of the case's profiles are merged by the REAL
+// ProfileMergeV2 (what SelectMergeProfile answers) in the given order of the profiles; the merged profile, read back as a
+// bag of (stack of function names, values), must carry for every stack the value vector of the specification -- no stack
+// lost, none invented, the totals the sums of the inputs.
+func (w *worker) payloadMerge(cs *Case, c *Concrete, pds []*wmodel.ProfileData, order []int,
+	mk func(kind, sigTail, msg string, exp, obs interface{})) {
+	w.res.Classes["payload_merge_runs"]++
+	want := map[string][]int64{}
+	show := map[string][]string{}
+	inOrder := map[int]bool{}
+	for _, i := range order {
+		inOrder[i] = true
+	}
+	if len(inOrder) != len(cs.Profs) { // (always every profile of the case: PayloadMerged is the merge of all of them)
+		return
+	}
+	for _, ps := range cs.PMerged {
+		names := make([]string, len(ps.Stack))
+		for i, a := range ps.Stack {
+			names[i] = c.realName(a)
+		}
+		want[stackKey(names)] = ps.Val
+		show[stackKey(names)] = ps.Stack
+	}
+	got := map[string][]int64{}
+	var mp *rprof.Profile
+	err := func() (err error) {
+		defer func() {
+			if r := recover(); r != nil {
+				err = fmt.Errorf("panic: %v", r)
+			}
+		}()
+		m := rsvc.NewProfileMergeV2()
+		for _, i := range order {
+			for _, payload := range pds[i].Payload {
+				var p rprof.Profile
+				if e := proto.Unmarshal(payload, &p); e != nil {
+					return fmt.Errorf("driver: unmarshal of a stored payload: %w", e)
+				}
+				if e := m.Merge(&p); e != nil {
+					return e
+				}
+			}
+		}
+		mp = m.Profile()
+		for si, s := range mp.Sample {
+			names := make([]string, len(s.LocationId))
+			for i, id := range s.LocationId {
+				if id == 0 || id > uint64(len(mp.Location)) {
+					return fmt.Errorf("dangling: sample %d refers to location %d of %d", si, id, len(mp.Location))
+				}
+				loc := mp.Location[id-1]
+				if len(loc.Line) == 0 {
+					names[i] = "n/a"
+					continue
+				}
+				fid := loc.Line[0].FunctionId
+				if fid == 0 || fid > uint64(len(mp.Function)) {
+					return fmt.Errorf("dangling: location %d refers to function %d of %d", id, fid, len(mp.Function))
+				}
+				ni := mp.Function[fid-1].Name
+				if ni < 0 || ni >= int64(len(mp.StringTable)) {
+					return fmt.Errorf("dangling: function %d refers to string %d of %d", fid, ni, len(mp.StringTable))
+				}
+				names[i] = mp.StringTable[ni]
+			}
+			k := stackKey(names)
+			if got[k] == nil {
+				got[k] = make([]int64, cs.K)
+			}
+			if len(s.Value) != cs.K {
+				return fmt.Errorf("dangling: sample %d has %d values, the profile %d sample types", si, len(s.Value), cs.K)
+			}
+			for j, v := range s.Value {
+				got[k][j] += v
+			}
+		}
+		return nil
+	}()
+	if err != nil {
+		switch {
+		case strings.HasPrefix(err.Error(), "driver:"):
+			fmt.Fprintln(os.Stderr, "driver error:", err)
+			os.Exit(3)
+		case strings.HasPrefix(err.Error(), "panic"):
+			mk("payload_merge", "panic", fmt.Sprintf("merging the stored payloads in profile order %v: the real ProfileMergeV2 crashed: %v", order, err), cs.PMerged, nil)
+		case strings.HasPrefix(err.Error(), "dangling"):
+			mk("payload_merge", "dangling_reference", fmt.Sprintf("merging the stored payloads in profile order %v: the merged profile is not well-formed: %v", order, err), cs.PMerged, nil)
+		default:
+			mk("payload_merge", "error", fmt.Sprintf("merging the stored payloads in profile order %v: the real ProfileMergeV2 refused profiles of one sample type list: %v", order, err), cs.PMerged, nil)
+		}
+		return
+	}
+	zero := func(v []int64) bool {
+		for _, x := range v {
+			if x != 0 {
+				return false
+			}
+		}
+		return true
+	}
+	disp := func(k string) []string { return strings.Split(k, "\x00")[1:] }
+	keys := make([]string, 0, len(want))
+	for k := range want {
+		keys = append(keys, k)
+	}
+	sort.Strings(keys)
+	for _, k := range keys {
+		g, present := got[k]
+		switch {
+		case !present && zero(want[k]): // a stack of weight 0 need not be kept
+		case !present:
+			mk("payload_merge", "lost_stack", fmt.Sprintf("merging the stored payloads in profile order %v: the stack %v (leaf first; functions %q) of weight %v is not in the merged profile",
+				order, show[k], disp(k), want[k]), cs.PMerged, got)
+		case !eqVec(g, want[k]):
+			mk("payload_merge", "stack_weight", fmt.Sprintf("merging the stored payloads in profile order %v: the stack %v (leaf first; functions %q) has the merged values %v, the sums of the inputs are %v",
+				order, show[k], disp(k), g, want[k]), cs.PMerged, got)
+		}
+	}
+	gk := make([]string, 0, len(got))
+	for k := range got {
+		gk = append(gk, k)
+	}
+	sort.Strings(gk)
+	for _, k := range gk {
+		if _, present := want[k]; !present && !zero(got[k]) {
+			mk("payload_merge", "invented_stack", fmt.Sprintf("merging the stored payloads in profile order %v: the merged profile has the stack %q of weight %v that no input has",
+				order, disp(k), got[k]), cs.PMerged, got)
+		}
+	}
+	w.res.Classes["payload_stacks_compared"] += len(want)
+}
+
 func (w *worker) auxMergeV2(cs *Case, c *Concrete, pds []*wmodel.ProfileData, order []int) {
 	w.aux.Runs++
 	var got []int64
@@ -1333,7 +1505,7 @@ func (w *worker) runVariant(ci int, cs *Case, abs interface{}, c *Concrete, atom
 	id2path := map[uint64][]string{}
 	path2id := map[string]uint64{}
 	for pi, p := range cs.Profs {
-		pp := buildPprof(rng, c, cs.K, p)
+		pp := buildPprof(rng, c, cs.K, p, w.res.Classes)
 		for ri, route := range routes {
 			if ri == 2 && ((ci+pi)%4 != 0 || stretched) { // the gzip body on the binary route: every 4th profile
 				continue
@@ -1642,6 +1814,7 @@ func (w *worker) runVariant(ci int, cs *Case, abs interface{}, c *Concrete, atom
 				check(fmt.Sprintf("writer:%v", perm), refs, ch, nil)
 				if ty == 0 && !stretched {
 					w.auxMergeV2(cs, c, pds, perm)
+					w.payloadMerge(cs, c, pds, perm, mk)
 				}
 				return
 			}
